@@ -189,6 +189,28 @@ def simplify(t, memo=None):
         r = mk_tproj(simplify(t[1], memo), t[2])
     elif k == "join":
         r = mk_join([simplify(x, memo) for x in t[1]])
+    elif k == "hof" and len(t) >= 4:
+        name, recv, body = t[1], simplify(t[2], memo), t[3]
+        rest = t[4] if len(t) > 4 else ()
+        if recv[0] == "ctor" and recv[1].rsplit("::", 1)[-1] in ("Some", "None"):
+            some = recv[1].endswith("Some")
+            b = simplify(body, memo)
+            if name in ("and_then",):
+                r = b if some else recv
+            elif name == "map":
+                r = ("ctor", recv[1], (b,)) if some else recv
+            elif name in ("is_some_and",):
+                r = b if some else FALSE
+            elif name in ("is_none_or",):
+                r = b if some else TRUE
+            elif name == "filter":
+                r = simplify(("ite", b, recv, ("ctor", recv[1].rsplit("::", 1)[0] + "::None", ())), memo) if some else recv
+            elif name in ("map_or",) and rest:
+                r = b if some else simplify(rest[0], memo)
+            elif name in ("or_else", "unwrap_or_else"):
+                r = (recv if name == "or_else" else recv[2][0]) if some else b
+        if r is None:
+            r = ("hof", name, recv, simplify(body, memo)) + ((tuple(simplify(x, memo) for x in rest),) if len(t) > 4 else ())
     elif k == "call" and isinstance(t[1], str) and t[1].endswith("::is_some") and len(t[2]) == 1:
         x = simplify(t[2][0], memo)
         if x[0] == "ctor":
